@@ -626,7 +626,9 @@ def run_solve(dfols, name, seed, table=None):
 
 def describe(s):
     di = s.diagnostic_info
-    return {"flag": int(s.flag), "n": len(s.x), "m": len(s.resid), "jac": None if s.jacobian is None else list(s.jacobian.shape),
+    # (a result whose resid is not a vector - seen with a seeded change - is described, not crashed on: the round trip /
+    # printing comparison below is what judges it)
+    return {"flag": int(s.flag), "n": len(s.x), "m": (len(s.resid) if np.ndim(s.resid) >= 1 else "scalar:" + type(s.resid).__name__), "jac": None if s.jacobian is None else list(s.jacobian.shape),
             "evalnums": None if s.jacmin_eval_nums is None else len(s.jacmin_eval_nums), "nruns": int(s.nruns),
             "obj": repr(float(s.obj)), "diag": None if di is None else list(di.shape)}
 
